@@ -2,6 +2,10 @@
 """Regenerates MANIFEST.json from the table below (run after adding a check)."""
 import json, subprocess
 CHECKS = {
+ "C12": dict(level="exploration", ref="2/C12",
+   text="One generated script (DDL, multi-row inserts, point/range selects, deletes, committed and rolled-back transactions, optional checkpoints) is executed on a reference configuration and on 3-4 other configurations drawn from the documented ranges (page size 4-64 KiB, cache 24-10000 pages, pool 1-8, min keys 3-6, siblings 1-3); per-statement outcomes and final contents must be identical; the only excused difference is the explicit buffer-pool out-of-memory error with a cache below 256 pages. The I/O tap shows whether eviction write-back actually happened.",
+   note="Trusted: pure differential oracle (no model): a defect that strikes identically in every configuration is not reported here. Row sizes and row counts stay inside the limits of open B+tree findings.",
+   technique="property-based testing: differential testing of one generated workload across generated configurations"),
  "C07": dict(level="exploration", ref="2/C07",
    text="Generated histories on tables with PRIMARY KEY / UNIQUE / NOT NULL constraints, key values from a small pool so that collisions, re-inserts after delete/rollback and two-session conflicts are the norm. Two-sided oracle: the model predicts which statements must be rejected and which accepted; independently, after every commit the engine's own SELECT output must contain no duplicate key and no NULL in a NOT NULL column.",
    note="Trusted: the SQL reference model and workload interpreter; divergences not attributable to the property's own mechanism are abandoned (counted); features with open findings are excluded by construction (counted).", technique="property-based testing: model-based (stateful) histories with shrinking, differential against an in-memory SQL model plus a model-independent invariant on the engine's output"),
